@@ -23,8 +23,8 @@ def plan(ctx):
     other = TOPIC_VARIANTS[(s // 3 + 1) % len(TOPIC_VARIANTS)]
     two = TWO_TOPICS[s % len(TWO_TOPICS)]
     if ctx.tier == "quick":
-        fail_bounds = [{"emit": 2, "msg": 0, "brk": 1, "lost": 1, "failA": 1, "failB": 1},
-                       {"emit": 2, "msg": 1, "brk": 0, "lost": 1, "failA": 1, "failB": 1}][s % 2]
+        fail_bounds = [{"emit": 2, "msg": 1, "brk": 0, "lost": 1, "failA": 1, "failB": 1},
+                       {"emit": 2, "msg": 0, "brk": 1, "lost": 1, "failA": 1, "failB": 0}][s % 2]
         return [
             # two local clients on one topic (reference counting), one message, a break anywhere
             ("core", ["c1", "c2"], one, {"emit": 3, "msg": 1, "brk": 1, "lost": 0}),
@@ -34,8 +34,11 @@ def plan(ctx):
     return [
         ("core2brk", ["c1", "c2"], one, {"emit": 3, "msg": 1, "brk": 2, "lost": 1}),
         ("fail", ["c1"], other, {"emit": 2, "msg": 1, "brk": 1, "lost": 1, "failA": 1, "failB": 1}),
-        ("twotopics", ["c1"], two, {"emit": 3, "msg": 0, "brk": 1, "lost": 1, "failB": 1 if s % 2 else 0, "failA": 0 if s % 2 else 1}),
+        ("twotopics", ["c1"], two, [{"emit": 3, "msg": 0, "brk": 1, "lost": 1, "failA": 1},
+                                    {"emit": 2, "msg": 1, "brk": 1, "lost": 1, "failB": 1}][s % 2]),
         ("refcount_fail", ["c1", "c2"], one, {"emit": 3, "msg": 0, "brk": 1, "lost": 1, "failB": 1}),
+        ("twotopics3", ["c1"], TWO_TOPICS[(s + 1) % len(TWO_TOPICS)], {"emit": 3, "msg": 0, "brk": 1, "lost": 1, "failA": 1}),
+        ("core_failB", ["c1", "c2"], other, {"emit": 3, "msg": 1, "brk": 1, "lost": 1, "failB": 1}),
     ]
 
 
@@ -57,6 +60,9 @@ def run(ctx):
         "Go map iteration order (resynchronisation, unsubscribeAll) is obtained by re-running until the model's order appears",
     ]
     fed_lib.build(ctx)
+    if getattr(ctx, "replay", None):
+        fed_lib.replay(ctx, "C16")
+        return
     packs = plan(ctx)
     results = [None] * len(packs)
     errors = []
@@ -92,6 +98,20 @@ def run(ctx):
         summaries.append(summary)
     ctx.cov["exhaustive"] = True
     fed_lib.report(ctx, "C16", "fedstream", alldivs, summaries)
+    # emission side below the grain of FedStream.tla: the hooks update the reference counter and queue the event in two
+    # separately locked steps (FedEmit.tla); TLC's counterexample schedule is run on the real hook wrappers
+    hp = fed_lib.hook_probe(ctx)
+    ctx.cov["hook_emission_probe"] = hp
+    if hp.get("reproduced") and hp.get("observed"):
+        ctx.violation("events of concurrently running hooks reach the peer in the wrong order: client c1 drops the last reference to "
+                      "topic t (OnUnsubscribed: counter updated, event not yet queued) while client c2 subscribes to t (counter "
+                      "updated and event queued); queued for the peer: %s; after the stream has drained: %s" % (
+                          hp.get("queued"), hp.get("observed")),
+                      {"signature": "C16:hook_emission_not_atomic", "kind": "fedstream-probe", "probe": "hookrace",
+                       "replay": "harness/cmd/fedstream -probe hookrace", "result": hp})
+    elif hp.get("model_violation") and hp.get("window") != "closed":
+        ctx.notes.append("timing_unconfirmed: the order inversion of FedEmit.tla was not obtained on the real hooks in %s tries"
+                         % hp.get("tries"))
     if ctx.tier != "quick":
         # model-only: with the two proposed repairs modelled every clause holds (never a verdict)
         res = fed_lib.design_check_stream(ctx, "repaired", ["c1", "c2"], ["t"],
